@@ -284,3 +284,38 @@ def same_as_reference(ctx: Ctx, rule: str, short: str, qualname: str, ref_src: s
     else:
         ctx.check(vd == "ok", rule, k, what_ok, f"{what_fail} (it computes {_av.show(cur)[:220]}; vetted: {_av.show(ref)[:220]})", f.where())
     return vd
+
+
+def alpha_text(node_or_text) -> str:
+    """text with the variables of comprehensions renamed positionally (a renamed loop variable is the same text)"""
+    import copy
+
+    tree = ast.parse(node_or_text, mode="eval").body if isinstance(node_or_text, str) else copy.deepcopy(node_or_text)
+    counter = [0]
+
+    def rename(node, mapping):
+        if isinstance(node, (ast.ListComp, ast.SetComp, ast.GeneratorExp, ast.DictComp)):
+            m2 = dict(mapping)
+            for g in node.generators:
+                rename(g.iter, m2)
+                for x in ast.walk(g.target):
+                    if isinstance(x, ast.Name):
+                        counter[0] += 1
+                        m2[x.id] = f"_c{counter[0]}"
+                for x in ast.walk(g.target):
+                    if isinstance(x, ast.Name):
+                        x.id = m2[x.id]
+                for c in g.ifs:
+                    rename(c, m2)
+            for fld in ("elt", "key", "value"):
+                if hasattr(node, fld):
+                    rename(getattr(node, fld), m2)
+            return
+        if isinstance(node, ast.Name) and node.id in mapping:
+            node.id = mapping[node.id]
+            return
+        for ch in ast.iter_child_nodes(node):
+            rename(ch, mapping)
+
+    rename(tree, {})
+    return norm(tree)
